@@ -23,15 +23,15 @@ def run(chk):
     cov["states"], cov["transitions"] = st, tr
     rnd = random.Random(chk.seed)
     # component level: every trace ends with the Metrics event of the real registry
-    behs = chk.tlc_simulate("Forwarder", "Forwarder_sim.cfg", 600 if thorough else 60, 150, chk.seed)
-    fs = [F.script_from_behaviour(b, "sim%d" % i, rnd) for i, b in enumerate(behs)] + [F.random_script("rnd%d" % i, rnd) for i in range(600 if thorough else 60)]
+    behs = chk.tlc_simulate("Forwarder", "Forwarder_sim.cfg", 2000 if thorough else 60, 150, chk.seed)
+    fs = [F.script_from_behaviour(b, "sim%d" % i, rnd) for i, b in enumerate(behs)] + [F.random_script("rnd%d" % i, rnd) for i in range(2000 if thorough else 60)]
     n1, e1, rej1, kinds, stop_ms, st1 = F.run_scripts(chk, fs, 2, "c19")
     c02.handle_rejections(chk, rej1, 2, False, cov)
-    hs = [H.random_script("A-rnd%d" % i, rnd, "A") for i in range(500 if thorough else 60)]
+    hs = [H.random_script("A-rnd%d" % i, rnd, "A") for i in range(2000 if thorough else 60)]
     n2, e2, rej2, k2, st2, hung = H.run_scripts(chk, hs, "A", "c19")
     c03.handle_rejections(chk, rej2, "A", cov)
     # end to end
-    scripts = A.stories() + [A.random_script("rnd%d" % i, rnd) for i in range(600 if thorough else 20)]
+    scripts = A.stories() + [A.random_script("rnd%d" % i, rnd) for i in range(2000 if thorough else 20)]
     n3, e3, rej3, consts = A.run_scripts(chk, scripts, FLAGS, "c19")
     A.handle(chk, rej3, FLAGS, "c19", consts)
     # gauges after the recovery of damaged / partial / empty chunk files (crash and I/O-fault scenarios of C04): dropped and
